@@ -45,6 +45,15 @@ CLAIMED = {
         "Marker strings are non-empty and not list markers; 'unchanged' is read modulo blanks around the first argument of a disabled parser function.",
         "DESIGN.md §5 C13",
     ),
+    "C14": (
+        ["ArgViews", "Gen_ArgViews"],
+        "the three argument-map algorithms (TemplateNode.template_parameters, expander loop, Lua make_frame+frame_args_index) transcribed separately in TLA+ and "
+        "checked by TLC against the reference ArgMap on all admissible lists; every list replayed through parse(), expand(template_fn) and a Lua dump module",
+        "Exhaustive over all admissible argument lists up to length 3 over 14 written forms (1853 lists) plus sampled longer lists evaluated by TLC from a file; "
+        "each real view must equal the specification's map (keys typed int/str, values exact).",
+        "plain-text names/values; Lua through offline stand-ins; the documented clamp of numeric names > 1000 is a listed finding.",
+        "DESIGN.md §5 C14",
+    ),
 }
 NOT_YET = "check not built yet in this round (see DESIGN.md §10 build order); nothing is claimed for it"
 
